@@ -132,7 +132,7 @@ func parseInit(f []string) (*env, bool) {
 		// the oracle ignores the hash name; the runner needs a known one to build the locker
 		return nil, false
 	}
-	if e.prime < 1 || e.prime > 100 || e.N < 1 || e.N > 16 || e.K < 1 || e.K > 16 || len(e.shards) != e.K || (single && e.prime != 1) {
+	if e.prime < 1 || e.prime > 100 || e.N < 1 || e.N > 32 || e.K < 1 || e.K > 32 || len(e.shards) != e.K || (single && e.prime != 1) {
 		return nil, false
 	}
 	for _, s := range e.shards {
@@ -388,6 +388,10 @@ func (r *runner) doCall(t int, unlock, write bool, keys []int, multi bool) strin
 			}
 		}
 	}
+	pre := map[int][]int{}
+	if !unlock {
+		pre = r.blockers()
+	}
 	lk := r.e.lk
 	ks := append([]int{}, keys...)
 	fn := func() string {
@@ -413,7 +417,89 @@ func (r *runner) doCall(t int, unlock, write bool, keys []int, multi bool) strin
 	}
 	r.cur[t] = &call{task: r.s.Go(fmt.Sprintf("t%d", t), fn), unlock: unlock, write: write, keys: ks}
 	r.settle()
+	if !unlock && r.cur[t] == nil {
+		r.orderMonitor(t, write, ks, pre)
+	}
 	return r.status()
+}
+
+// acqPos: position of key k in the order in which a call with list keys takes its keys (documented order:
+// shard index ascending for the group lockers, then the caller's list order).
+func (r *runner) acqPos(keys []int, k int) int {
+	idx := -1
+	for i, x := range keys {
+		if x == k {
+			idx = i
+		}
+	}
+	if idx < 0 {
+		return -1
+	}
+	if r.e.kind == "klg" || r.e.kind == "tkg" {
+		return r.e.shards[k]*1000 + idx
+	}
+	return idx
+}
+
+// blockers: for every parked lock call M, the keys of M on which some other thread holds or awaits a conflicting
+// lock — M can only be asleep on one of these (P-level bookkeeping, conservative: more candidates, fewer alarms).
+func (r *runner) blockers() map[int][]int {
+	out := map[int][]int{}
+	for m, c := range r.cur {
+		if c == nil || c.unlock {
+			continue
+		}
+		out[m] = []int{}
+		for _, x := range c.keys {
+			cand := false
+			for u := 0; u < r.e.N; u++ {
+				if u == m {
+					continue
+				}
+				if w, ok := r.held[u][x]; ok && (w || c.write) {
+					cand = true
+				}
+				if cu := r.cur[u]; cu != nil && !cu.unlock && (cu.write || c.write) {
+					for _, y := range cu.keys {
+						if y == x {
+							cand = true
+						}
+					}
+				}
+			}
+			if cand {
+				out[m] = append(out[m], x)
+			}
+		}
+	}
+	return out
+}
+
+// orderMonitor: thread t has just obtained `keys` without waiting. A lock call M that was (and still is) parked must
+// already hold every key that precedes, in the documented acquisition order, all keys it can possibly be asleep on;
+// if t obtained such a key in a conflicting mode, M did not take its keys in that order.
+func (r *runner) orderMonitor(t int, write bool, keys []int, pre map[int][]int) {
+	for m, cand := range pre {
+		c := r.cur[m]
+		if m == t || c == nil || c.unlock || len(cand) == 0 {
+			continue
+		}
+		for _, a := range keys {
+			pa := r.acqPos(c.keys, a)
+			if pa < 0 || !(c.write || write) {
+				continue
+			}
+			before := true
+			for _, x := range cand {
+				if r.acqPos(c.keys, x) <= pa {
+					before = false
+				}
+			}
+			if before {
+				r.hit("order:parked-call-skipped-earlier-key", fmt.Sprintf("%s: thread %d is parked in a lock call on keys %v (write=%v); it can only be asleep on one of %v, all of which come after key %d in the acquisition order (shard index, list position), so it must hold key %d — yet thread %d obtained key %d (write=%v) without waiting", r.e.kind, m, c.keys, c.write, cand, a, a, t, a, write))
+			}
+		}
+	}
 }
 
 func (r *runner) drain() string {
